@@ -802,11 +802,17 @@ def run(chk):
                        "nested arrays / references to such objects or to nothing) x stream pools + random arrays drawn with replacement, through getPageContents, "
                        "pipePageContents, coalesceContentStreams, filterPageContents, addContentTokenFilter, parsePageContents, addPageContents(first/last), "
                        "externalizeInlineImages(0/3) on files read back by qpdf; non-trivial = a repeated entry, a non-stream element or more than one page, "
-                       "distinct by document. cli: see parts.cli")
+                       "distinct by document. idem: every end-of-line convention around every kind of token, every byte after ID x first data byte x 0/1/9/10/11 "
+                       "tokens behind the image, image data that open a comment / string / hexadecimal string for findEI's look-ahead with re-spelt tokens behind, "
+                       "token soup with and without images, each through the real normaliser twice and the extracted model twice; non-trivial = the first pass "
+                       "changes the bytes, distinct by input. writer: documents whose stream objects are page content (single, direct / indirect array, with "
+                       "non-stream elements) and / or form XObject, appearance stream, catalog /Metadata (typed or not), /Contents of a dictionary that is not a "
+                       "page, element of a nested array x seven writer configurations through the CLI; non-trivial = a stream that was re-spelt, distinct by "
+                       "(document, configuration, stream). cli: see parts.cli")
     import time
     t0 = time.time()
     phases = chk.cov.setdefault("phase_seconds", {})
-    part_normalize(chk, drv, runner)
+    norm_cases = part_normalize(chk, drv, runner)
     phases["normalize"] = round(time.time() - t0, 1)
     t0 = time.time()
     part_streams(chk, drv, runner)
@@ -814,6 +820,15 @@ def run(chk):
     t0 = time.time()
     part_pagelists(chk, drv, runner)
     phases["pagelists"] = round(time.time() - t0, 1)
+    t0 = time.time()
+    # extension: idempotence of normalisation (aimed streams, hypotheses of ci_normalize_idempotent evaluated) and the writer's
+    # normalized_streams rule (which streams are normalised) - harness/c16_idem.py
+    import c16_idem
+    c16_idem.part_idem(chk, drv, runner, norm_cases)
+    phases["idem"] = round(time.time() - t0, 1)
+    t0 = time.time()
+    c16_idem.part_writer(chk, drv, runner)
+    phases["writer"] = round(time.time() - t0, 1)
     t0 = time.time()
     try:
         import c16_cli
@@ -841,6 +856,9 @@ def replay(chk, rep):
     runner = os.path.join(common.EXTRACT, "model_runner")
     print(json.dumps({k: v for k, v in rep.items() if k not in ("coqc_output",)}, indent=1)[:4000])
     line = rep.get("replay")
+    if rep.get("part") in ("writer", "writer-api") or str(rep.get("correspondence", "")).startswith("corr:C16:writer"):
+        import c16_idem
+        return c16_idem.replay_writer(chk, rep)
     if isinstance(line, str) and line.startswith("c16"):
         i = common.run_lines(drv, [line])[0]
         m = common.run_lines(runner, [line])[0]
